@@ -177,22 +177,33 @@ def parse_desc(words):
 def emit_go(progs):
     out = ["// Code generated by /verif/checks/C16.py. DO NOT EDIT.", "package main", "",
            'import "github.com/fogfish/golem/duct"', "", "func init() {", "\tprograms = append(programs,"]
-    for p in progs:
+    # how an operand value comes about does not matter, the recorded names are those of the step's type parameters:
+    # lifted by L1/L2 (half of the operands), the zero value of T[A] / F[B, C], or a value lifted at other types and
+    # converted (all instances of T, and of F, share one underlying type)
+    def t1(pi, i, a):
+        k = (pi * 7 + i * 3) % 4
+        return ("duct.L1[%s](nil)" % a) if k < 2 else (("duct.T[%s]{}" % a) if k == 2 else ("duct.T[%s](duct.L1[string](nil))" % a))
+
+    def f2(pi, i, b, c):
+        k = (pi * 5 + i * 3) % 4
+        return ("duct.L2[%s, %s](nil)" % (b, c)) if k < 2 else (("duct.F[%s, %s]{}" % (b, c)) if k == 2 else ("duct.F[%s, %s](duct.L2[string, string](nil))" % (b, c)))
+
+    for pi, p in enumerate(progs):
         a = go_type(p[0][1])
-        body = ["m0 := duct.From[%s](duct.L1[%s](nil))" % (a, a)]
+        body = ["m0 := duct.From[%s](%s)" % (a, t1(pi, 0, a))]
         for i, st in enumerate(p[1:], 1):
             op = st[0]
             if op in ("join", "liftF"):
                 b, c = go_type(st[1]), go_type(st[2])
                 fn = "Join" if op == "join" else "LiftF"
-                body.append("m%d := duct.%s[%s, %s, %s](duct.L2[%s, %s](nil), m%d)" % (i, fn, a, b, c, b, c, i - 1))
+                body.append("m%d := duct.%s[%s, %s, %s](%s, m%d)" % (i, fn, a, b, c, f2(pi, i, b, c), i - 1))
             elif op == "wrapF":
                 body.append("m%d := duct.WrapF[%s, %s](m%d)" % (i, a, go_type(st[1]), i - 1))
             elif op == "unit":
                 body.append("m%d := duct.Unit[%s, %s](m%d)" % (i, a, go_type(st[1]), i - 1))
             elif op == "yield":
                 b = go_type(st[1])
-                body.append("m%d := duct.Yield[%s, %s](duct.L1[%s](nil), m%d)" % (i, a, b, b, i - 1))
+                body.append("m%d := duct.Yield[%s, %s](%s, m%d)" % (i, a, b, t1(pi, i, b), i - 1))
         body.append("return m%d" % (len(p) - 1))
         out.append("\t\tprogram{%s, func() applier {\n\t\t\t%s\n\t\t}}," % (json.dumps(desc(p)), "\n\t\t\t".join(body)))
     out += ["\t)", "}", ""]
